@@ -1,4 +1,5 @@
 import TTV.Model.StreamDeco
+import TTV.Generated.C11
 import TTV.Spec.C11
 /-! # C11 — stream decorators forward each event once, change only their field, never alias
 
@@ -571,5 +572,10 @@ example :
                        calls := [.status (ev0 .success (some 0))] }
     cNoLateWrite i { leaves := [[.status (valueOf i.objs (ev0 .success (some 0))) (some (.caller 0)) (some [0, 1])]],
                      caller := [], callerEnd := [] } = false := by decide
+
+/-! ## tie to the source: `StreamTagger.status`' set arithmetic translated from the code (harness/pyset2lean.py,
+regenerated on every run into `TTV/Generated/C11.lean`) is the model's `tagged` -/
+theorem C11_src_tagger (h : Heap) (e : EventOf Ref) (add discard : List Nat) :
+    tagged h e add discard = norm (TTV.Generated.C11.taggerTags_src ((deref h e.tags).getD []) add discard) := rfl
 
 end TTV.Props.C11
